@@ -141,7 +141,7 @@ pub fn finish(body: Vec<Stmt>, ctx: Context) -> Program {
 
 // ------------------------------------------------------------------ alphabets
 
-/// 25-symbol alphabet of the sequence sub-family (one representative per branch
+/// 27-symbol alphabet of the sequence sub-family (one representative per branch
 /// of the transfer functions and rewrite rules).
 pub fn seq_alphabet() -> Vec<Snippet> {
     vec![
@@ -170,6 +170,8 @@ pub fn seq_alphabet() -> Vec<Snippet> {
         vec![lw(T1, 0, T0)],
         vec![sw(ZERO, 0, SP)],
         vec![li(A0, 3)],
+        vec![inst(Inst::Store(SOp::Sb, T1, SP, 1))],
+        vec![inst(Inst::Store(SOp::Sh, T1, SP, 6))],
     ]
 }
 
@@ -242,6 +244,16 @@ pub fn big_alphabet() -> Vec<Snippet> {
                     v.push(vec![inst(Inst::Store(op, val, base, off))]);
                 }
             }
+        }
+    }
+    // sub-word accesses that land strictly inside a word (a tracked slot must not survive
+    // a partial overwrite; a partial read is not the slot's value)
+    for off in [-7, -6, -5, -3, -2, -1, 1, 2, 3, 5, 6, 7] {
+        v.push(vec![inst(Inst::Store(SOp::Sb, T1, SP, off))]);
+        v.push(vec![inst(Inst::Load(LOp::Lbu, T2, SP, off))]);
+        if off % 2 == 0 {
+            v.push(vec![inst(Inst::Store(SOp::Sh, T1, SP, off))]);
+            v.push(vec![inst(Inst::Load(LOp::Lh, T2, SP, off))]);
         }
     }
     v.push(vec![inst(Inst::La(T2, "D".into()))]);
